@@ -16,7 +16,7 @@ from ..model import Undecided, template_placeholders, xml_context
 from ..cfg import dotted, call_name, is_call, simple_name, unparse, const_value, contains, enclosing
 from ..flow import Defs, depends, consteval, try_const, NotConst
 from ..decide import table, ret_kind
-from ..util import keyword, returns_of, calls_in, inside, order_key
+from ..util import component_expr, resolve1, keyword, returns_of, calls_in, inside, order_key
 
 NOT_DECIDED = ('numeric agreement of the advertised numbers (units-per-pixel, scale denominators, matrix sizes, corners) '
                'with the served rectangles; the flip arithmetic for every grid')
@@ -174,7 +174,7 @@ def c02b(ctx):
     fn = ctx.fn('mapproxy/service/tile.py:TileLayer._internal_tile_coord')
 
     def ev(st):
-        if isinstance(st, ast.Assign) and is_call(st.value, 'flip_tile_coord'):
+        if isinstance(st, (ast.Assign, ast.Return, ast.Expr)) and contains(st, lambda x: is_call(x, 'flip_tile_coord')):
             return 'flip'
         return None
     tab = ctx.rows(table(fn.node.body, lambda n: 'raise' if isinstance(n, ast.Raise) else 'return', event_of=ev))
@@ -255,26 +255,38 @@ def c02c(ctx):
     tm = ctx.fn('mapproxy/service/wmts.py:TileMatrixSet._tile_matrices')
     defs = Defs(tm.node)
     g = tm.cfg
-    o = [v for v, sel in defs.of('origin')]
-    ok = len(o) == 1 and is_call(o[0], 'origin_tile') and const_value(o[0].args[1]) in ('ul', 'nw') and unparse(o[0].args[0]) == 'level'
-    ctx.check(ok, 'TileMatrixSet._tile_matrices:origin-tile-ul', 'the corner tile is grid.origin_tile(level, "ul")', tm)
-    b = [v for v, sel in defs.of('bbox')]
-    ok = len(b) == 1 and is_call(b[0], 'tile_bbox') and unparse(b[0].args[0]) == 'origin'
-    ctx.check(ok, 'TileMatrixSet._tile_matrices:corner-from-tile-bbox', 'the corner is taken from tile_bbox(origin tile)', tm)
-    tls = g.find_stmts(lambda s: isinstance(s, ast.Assign) and unparse(s.targets[0]) == 'topleft')
-    ok = len(tls) == 2
-    for n in tls:
-        v = g.stmt[n].value
-        idx = [const_value(e.slice) for e in v.elts] if isinstance(v, ast.Tuple) and all(isinstance(e, ast.Subscript) and unparse(e.value) == 'bbox' for e in v.elts) else None
+    ys0 = [x for x in tm.walk() if is_call(x, 'bunch')]
+    tlarg = keyword(ys0[0], 'topleft') if ys0 else None
+    # every binding of the corner: a pair whose components come from tile_bbox(origin_tile(level, 'ul'))
+    if isinstance(tlarg, ast.Name):
+        tls = [(n, g.stmt[n].value) for n in g.find_stmts(lambda s: isinstance(s, ast.Assign) and unparse(s.targets[0]) == tlarg.id)]
+    elif isinstance(tlarg, ast.IfExp):
+        tls = []
+    else:
+        tls = [(g.node_for(tlarg), tlarg)] if tlarg is not None else []
+    comps, ok_o, ok_b = [], bool(tls), bool(tls)
+    for n, v in tls:
+        cs = [component_expr(e, defs) for e in v.elts] if isinstance(v, ast.Tuple) and len(v.elts) == 2 else [None, None]
+        comps.append((n, cs))
+        for c in cs:
+            ok_b = ok_b and c is not None and is_call(c[0], 'tile_bbox') and len(c[0].args) == 1
+            if ok_b:
+                t = resolve1(c[0].args[0], defs)
+                ok_o = ok_o and is_call(t, 'origin_tile') and len(t.args) == 2 and const_value(t.args[1]) in ('ul', 'nw') and unparse(t.args[0]) == 'level'
+    ctx.check(ok_o and ok_b, 'TileMatrixSet._tile_matrices:origin-tile-ul', 'the corner tile is grid.origin_tile(level, "ul")', tm)
+    ctx.check(ok_b, 'TileMatrixSet._tile_matrices:corner-from-tile-bbox', 'the corner is taken from tile_bbox(origin tile)', tm)
+    ok = len(tls) == 2 and ok_b
+    for n, cs in comps:
+        idx = [c[1] if c else None for c in cs]
         swapped = g.guarded(n, lambda at: at.op is None and 'is_axis_order_ne' in unparse(at.expr), True)
         ok = ok and idx == ([3, 0] if swapped else [0, 3])
+    ok = ok and any(g.guarded(n, lambda at: at.op is None and 'is_axis_order_ne' in unparse(at.expr), True) for n, _ in tls)
     ctx.check(ok, 'TileMatrixSet._tile_matrices:topleft', 'topleft = (minx, maxy), swapped to (maxy, minx) only for north/east axis order', tm,
               fail='TopLeftCorner is not (bbox[0], bbox[3]) (swapped only under is_axis_order_ne)')
     ys = [x for x in tm.walk() if is_call(x, 'bunch')]
-    ok = bool(ys) and unparse(keyword(ys[0], 'grid_size')) == 'grid_size' and unparse(keyword(ys[0], 'tile_size')) == 'self.grid.tile_size' \
-        and unparse(keyword(ys[0], 'identifier')) == 'level' and unparse(keyword(ys[0], 'topleft')) == 'topleft'
-    gs = [v for v, sel in defs.of('grid_size')]
-    ok = ok and len(gs) == 1 and unparse(gs[0]) == 'self.grid.grid_sizes[level]'
+    ok = bool(ys) and keyword(ys[0], 'grid_size') is not None and unparse(keyword(ys[0], 'tile_size')) == 'self.grid.tile_size' \
+        and unparse(keyword(ys[0], 'identifier')) == 'level'
+    ok = ok and unparse(resolve1(keyword(ys[0], 'grid_size'), defs)) == 'self.grid.grid_sizes[level]'
     ctx.check(ok, 'TileMatrixSet._tile_matrices:per-level-values', 'identifier, grid size, tile size and corner of one matrix come from the same level', tm)
 
 
@@ -446,7 +458,9 @@ def c02f(ctx):
     px = try_const(ast.Name(id='OGC_PIXEL_SIZE'), repo, gm)
     tm = ctx.fn('mapproxy/service/wmts.py:TileMatrixSet._tile_matrices')
     defs = Defs(tm.node)
-    sd = [v for v, sel in defs.of('scale_denom')]
+    bn = [x for x in tm.walk() if is_call(x, 'bunch')]
+    sdarg = keyword(bn[0], 'scale_denom') if bn else None
+    sd = [resolve1(sdarg, defs)] if sdarg is not None else []
     ok = False
     got = None
     if len(sd) == 1:
